@@ -4,6 +4,11 @@
 import vlib
 from units import broker_common
 
+# the contract of RangeList::new proved here; units that use new() modularly import this very text
+NEW_HEADER = """    pub fn new(ranges: Vec<Range>) -> (r: Self)
+        requires bounded(ranges@)
+        ensures wf(r.0@), forall|s: int| covers(r.0@, s) <==> covers(ranges@, s)"""
+
 def build(U):
     C = U.src('src/common/cluster.rs')
     U.add('''use vstd::prelude::*;
@@ -29,9 +34,7 @@ global size_of usize == 8;
     U.add_fn(f)
     # thin wrappers around compact(): new, from_single_range, merge_another, merge
     g = C.fn('new', within=r'impl RangeList\b')
-    g.header("""    pub fn new(ranges: Vec<Range>) -> (r: Self)
-        requires bounded(ranges@)
-        ensures wf(r.0@), forall|s: int| covers(r.0@, s) <==> covers(ranges@, s)""")
+    g.header(NEW_HEADER)
     U.add_fn(g)
     g = C.fn('from_single_range', within=r'impl RangeList\b')
     g.header("""    pub fn from_single_range(mut range: Range) -> (r: Self)
